@@ -360,9 +360,52 @@ def check_codec(msgs, trailing, obs):
     return problems
 
 
+def check_unlisten_other(length, mtu, stop_after, order_seed, obs):
+    ''' The agent listens on two interfaces; while a segmented transfer is arriving on one, the user stops listening on the
+    OTHER one.  Every segment arrives exactly once: one copy is queued. '''
+    import psutil
+    problems, payloads, bundle = check_send(length, mtu, obs, salt=7)
+    if problems or len(payloads) < 2:
+        return []
+    node = BtpuNode(None)
+    psutil.FAKE_IFS['eth1'] = 'aa-bb-cc-00-00-09'
+    try:
+        for ifname in (IF_NAME, 'eth1'):
+            node.call('listen', ifname, dbus.Dictionary({}, signature='sv'))
+        order = list(range(len(payloads)))
+        random.Random(order_seed).shuffle(order)
+        copies = 0
+        for step, idx in enumerate(order):
+            if step == stop_after:
+                try:
+                    node.call('listen_stop', 'eth1')
+                    obs['unlisten_calls_served'] = obs.get('unlisten_calls_served', 0) + 1
+                except Exception:  # pylint: disable=broad-except
+                    # (the call fails on its own in this tree; what matters is that the transfer on the other interface goes on)
+                    obs['unlisten_calls_failed'] = obs.get('unlisten_calls_failed', 0) + 1
+            before = node.queue()
+            node.recv(payloads[idx])
+            for tid in [tid for tid in node.queue() if tid not in before]:
+                data = bytes(node.call('recv_bundle_pop_data', tid))
+                if data != bundle:
+                    return ['queued item of %d octets differs from the bundle' % len(data)]
+                copies += 1
+        obs['receive_histories'] += 1
+        obs['unlisten_histories'] = obs.get('unlisten_histories', 0) + 1
+        if copies != 1:
+            return ['every segment arrived once on %s while listening on eth1 was stopped after %d of %d segments: %d copies queued' % (
+                IF_NAME, stop_after, len(payloads), copies)]
+        return []
+    finally:
+        psutil.FAKE_IFS.pop('eth1', None)
+        node.close()
+
+
 def cases(tier, seed):
     out = []
     thorough = tier == 'thorough'
+    for rep in range(40 if thorough else 3):
+        out.append(dict(id='unlisten-%d' % rep, kind='unlisten', seed=seed * 53 + rep))
     for idx in range(900 if thorough else 12):
         out.append(dict(id='codec-%d' % idx, kind='codec', seed=seed * 811 + idx, count=200 if thorough else 60))
     for mtu in ((60, 64, 100, 128, 256, 1500) if thorough else (64, 100, 256)):
@@ -470,6 +513,13 @@ def run_case(case):
                 arrivals = [(key, idx, payloads[idx], PEER_MAC) for idx in perm]
                 note(check_receive(arrivals, {key: (bundle, len(payloads))}, obs), 'perm', dict(n=len(payloads), order=list(perm)),
                      'perm|%s|%s' % (length, perm))
+    elif kind == 'unlisten':
+        for mtu in (64, 100):
+            length = rng.randint(3 * mtu, 5 * mtu)
+            nseg_guess = 6
+            for stop_after in range(0, nseg_guess):
+                note(check_unlisten_other(length, mtu, stop_after, rng.randrange(1000), obs), 'unlisten', dict(length=length, mtu=mtu, stop_after=stop_after),
+                     'unlisten|%d|%d|%d' % (length, mtu, stop_after))
     elif kind == 'inter':
         for _ in range(case['count']):
             originals = {}
